@@ -4,3 +4,4 @@ from contracts import plugin  # noqa
 from contracts import pulse  # noqa
 from contracts import peaks  # noqa
 from contracts import selection  # noqa
+from contracts import context  # noqa
